@@ -19,12 +19,15 @@
     - [lz.rt]  (instant -> wall -> instants): the wall reading is t + zone_off t and the answer is
       (t), or (a, b) with a < b and t one of them;
     - [lz.env]: [lz.at] / [lz.loc] through the public route (direction argument 0 / 1);
-    - [lz.uloc] / [lz.usel] / [lz.urt]: the same statements, for the wall times at which the zone
-      does NOT satisfy the spacing condition [spacing_ok] (transitions closer together than the
-      offset change); an element at which the zone is well spaced is skipped under these ops.
+    - [lz.uat]: [lz.at] for the instants in whose year the rule is NOT regular ([spacing_rule_self]);
+    - [lz.uloc] / [lz.usel] / [lz.urt]: the same statements, for the readings at which
+      the zone does NOT satisfy the spacing condition [spacing_ok] (transitions closer together
+      than the offset change, rules whose start and end swap their order from one year to the
+      next); an element at which the zone is well spaced is skipped under these ops.
     Outside the domain (skip): zone model not well formed; an implementation that rejected the
     zone (acceptance is C16); instants within three days of the ends of chrono's date range;
-    offsets FixedOffset cannot carry (|o| >= 86400); rule years in which a rule transition lies
+    offsets FixedOffset cannot carry (|o| >= 86400; for wall-clock readings: anywhere in the zone);
+    rule years in which a rule transition lies
     within one day of the year's ends (the property's premise) or both transitions coincide. *)
 From Coq Require Import ZArith List Bool String.
 From V Require Import Base.Int Base.IO Spec.Gregorian Spec.Zone.
@@ -108,21 +111,20 @@ Definition rule_dom (z : szone) (x : Z) : bool :=
   end.
 Definition in_dom (z : szone) (x : Z) : bool := ts_ok x && rule_dom z x.
 
-(** ** the spacing condition: every transition's wall-clock window [T + min(before, after),
-    T + max(before, after)] ends before the wall clock of any later period begins *)
-Definition later_ok (lim : Z) (rest : list (Z * Z)) : bool :=
-  forallb (fun p => lim <? fst p + snd p) rest.
-Fixpoint spacing_table (tr : list (Z * Z)) (cur : Z) : bool :=
+(** ** the spacing condition: the wall-clock windows of the transitions,
+    [T + min(before, after), T + max(before, after)], are pairwise disjoint and in the order of
+    the transitions (transitions are further apart than the offsets change) *)
+Fixpoint windows (tr : list (Z * Z)) (cur : Z) : list (Z * Z) :=
   match tr with
-  | [] => true
-  | (tj, oj) :: rest => later_ok (tj + Z.max cur oj) rest && spacing_table rest oj
+  | [] => []
+  | (t, o) :: rest => (t + Z.min cur o, t + Z.max cur o) :: windows rest o
   end.
-(* largest window end of the table, and the offset before / at the last transition *)
-Fixpoint table_hi (tr : list (Z * Z)) (cur acc : Z) : Z :=
-  match tr with
-  | [] => acc
-  | (tj, oj) :: rest => table_hi rest oj (Z.max acc (tj + Z.max cur oj))
+Fixpoint ordered (ws : list (Z * Z)) : bool :=
+  match ws with
+  | (_, hi) :: (((lo, _) :: _) as rest) => (hi <? lo) && ordered rest
+  | _ => true
   end.
+Definition spacing_table (tr : list (Z * Z)) (cur : Z) : bool := ordered (windows tr cur).
 Fixpoint before_last (tr : list (Z * Z)) (cur : Z) : Z :=
   match tr with
   | [] => cur
@@ -132,22 +134,32 @@ Fixpoint before_last (tr : list (Z * Z)) (cur : Z) : Z :=
 (* the rule's transitions of year y: (instant, offset before, offset after) *)
 Definition rule_events (a : srule) (y : Z) : list (Z * Z * Z) :=
   [(rule_start_utc a y, r_std a, r_dst a); (rule_end_utc a y, r_dst a, r_std a)].
+Definition ev_window (e : Z * Z * Z) : Z * Z :=
+  let '(r, before, after) := e in (r + Z.min before after, r + Z.max before after).
+(* the rule alone, around year y: the same order of start and end in the three years, and the
+   six windows disjoint and in order *)
 Definition spacing_rule_self (a : srule) (y : Z) : bool :=
-  let d := Z.abs (r_dst a - r_std a) in
-  (d <=? 86400) &&
-  forallb (fun yy => d <? Z.abs (rule_start_utc a yy - rule_end_utc a yy)) [y - 1; y; y + 1].
+  let north := rule_start_utc a y <? rule_end_utc a y in
+  let evs yy := if north then rule_events a yy else rev (rule_events a yy) in
+  Bool.eqb (rule_start_utc a (y - 1) <? rule_end_utc a (y - 1)) north &&
+  Bool.eqb (rule_start_utc a (y + 1) <? rule_end_utc a (y + 1)) north &&
+  ordered (map ev_window (evs (y - 1) ++ evs y ++ evs (y + 1))).
+(* the rule against the table: a rule transition at the last table transition continues the
+   table's offset; one before it ends its window no later than the last table window begins;
+   one after it begins its window after the last table window *)
 Definition spacing_rule_table (z : szone) (a : srule) : bool :=
   match last_trans (z_trans z) with
   | None => true
   | Some tn =>
       let p := before_last (z_trans z) (z_first z) in
-      let hi := table_hi (z_trans z) (z_first z) tn in
+      let on := table_off (z_trans z) (z_first z) tn in
       let y := utc_year tn in
       forallb (fun ev =>
         let '(r, before, after) := ev in
+        let '(lo, hi) := ev_window ev in
         if r =? tn then before =? p
-        else if r <? tn then r + Z.max before after <=? tn + Z.min (r_std a) (r_dst a)
-        else hi <? r + Z.min before after)
+        else if r <? tn then hi <? tn + Z.min p on
+        else tn + Z.max p on <? lo)
         (rule_events a (y - 1) ++ rule_events a y ++ rule_events a (y + 1))
   end.
 Definition spacing_ok (z : szone) (w : Z) : bool :=
@@ -156,14 +168,20 @@ Definition spacing_ok (z : szone) (w : Z) : bool :=
   | Some (inr a) => spacing_rule_self a (utc_year w) && spacing_rule_table z a
   | _ => true
   end.
+(* every offset of the zone can be carried by a FixedOffset (otherwise the conversion of a wall
+   reading next to such a period answers None as a whole) *)
+Definition offsets_ok (z : szone) : bool := forallb fo_ok (zone_offsets z).
 
 (** ** expected answers *)
-Definition undetermined (z : szone) (w : Z) : bool :=
-  existsb (fun o => match zone_off z (w - o) with None => true | Some _ => false end) (zone_offsets z).
+(* [offs] is [zone_offsets z], computed once per case (the list has no duplicates and is the same
+   for every reading: [instants_of_wall z w = instants_of_wall_among (zone_offsets z) z w] by
+   definition) *)
+Definition undetermined (offs : list Z) (z : szone) (w : Z) : bool :=
+  existsb (fun o => match zone_off z (w - o) with None => true | Some _ => false end) offs.
 (* offsets for a wall-clock reading, earliest instant first; None = no claim *)
-Definition expected_loc (z : szone) (w : Z) : option (list Z) :=
-  if negb (in_dom z w) || excepted_wall z w || undetermined z w then None else
-  match instants_of_wall z w with
+Definition expected_loc (offs : list Z) (z : szone) (w : Z) : option (list Z) :=
+  if negb (in_dom z w) || negb (forallb fo_ok offs) || excepted_wall z w || undetermined offs z w then None else
+  match instants_of_wall_among offs z w with
   | [] => Some []
   | [t] => if fo_ok (w - t) then Some [w - t] else None
   | [t1; t2] => if fo_ok (w - t1) && fo_ok (w - t2) then Some [w - t1; w - t2] else None
@@ -178,13 +196,13 @@ Definition j_at (z : szone) (t : Z) (out : val) : ev :=
   | None => ESkip
   | Some o => if negb (fo_ok o) then ESkip else if val_eqb out (VInt o) then EOk else EBad (VInt o)
   end.
-Definition j_loc (z : szone) (w : Z) (out : val) : ev :=
-  match expected_loc z w with
+Definition j_loc (offs : list Z) (z : szone) (w : Z) (out : val) : ev :=
+  match expected_loc offs z w with
   | None => ESkip
   | Some l => let e := VTup (map VInt l) in if val_eqb out e then EOk else EBad e
   end.
-Definition j_sel (z : szone) (w : Z) (out : val) : ev :=
-  match expected_loc z w with
+Definition j_sel (offs : list Z) (z : szone) (w : Z) (out : val) : ev :=
+  match expected_loc offs z w with
   | None => ESkip
   | Some l =>
       let e := match l with
@@ -195,7 +213,7 @@ Definition j_sel (z : szone) (w : Z) (out : val) : ev :=
       if val_eqb out e then EOk else EBad e
   end.
 Definition j_rt (z : szone) (t : Z) (out : val) : ev :=
-  if negb (in_dom z t) then ESkip else
+  if negb (in_dom z t) || negb (offsets_ok z) then ESkip else
   match zone_off z t with
   | None => ESkip
   | Some o =>
@@ -255,14 +273,20 @@ Definition judge (op : bytes) (args : list val) (out : val) : verdict :=
       match dec_zone zm with
       | None => JSkip
       | Some z =>
+          let offs := zone_offsets z in
           let wall_self := fun w : Z => Some w in
           let wall_of_t := fun t : Z => match zone_off z t with Some o => Some (t + o) | None => None end in
           if op_is op "lz.at" then batch (j_at z) xs out
-          else if op_is op "lz.loc" then batch (j_loc z) xs out
-          else if op_is op "lz.sel" then batch (j_sel z) xs out
+          else if op_is op "lz.loc" then batch (j_loc offs z) xs out
+          else if op_is op "lz.sel" then batch (j_sel offs z) xs out
           else if op_is op "lz.rt" then batch (j_rt z) xs out
-          else if op_is op "lz.uloc" then batch (unspaced z j_loc wall_self) xs out
-          else if op_is op "lz.usel" then batch (unspaced z j_sel wall_self) xs out
+          else if op_is op "lz.uat" then
+            batch (fun t o => match z_rule z with
+                              | Some (inr a) => if spacing_rule_self a (utc_year t) then ESkip else j_at z t o
+                              | _ => ESkip
+                              end) xs out
+          else if op_is op "lz.uloc" then batch (unspaced z (j_loc offs) wall_self) xs out
+          else if op_is op "lz.usel" then batch (unspaced z (j_sel offs) wall_self) xs out
           else if op_is op "lz.urt" then batch (unspaced z j_rt wall_of_t) xs out
           else JSkip
       end
@@ -272,7 +296,7 @@ Definition judge (op : bytes) (args : list val) (out : val) : verdict :=
       | Some z =>
           if op_is op "lz.env" then
             if dir =? 0 then batch (j_at z) xs out
-            else if dir =? 1 then batch (j_loc z) xs out
+            else if dir =? 1 then batch (j_loc (zone_offsets z) z) xs out
             else JSkip
           else JSkip
       end
